@@ -113,6 +113,15 @@ func Dir() string {
 	return "/verif"
 }
 
+// OutDir is where evidence and replay files go (the verification root, unless a run against an
+// alternative source tree redirects its output so that the registered evidence is left alone).
+func OutDir() string {
+	if d := os.Getenv("VERIF_OUT"); d != "" {
+		return d
+	}
+	return Dir()
+}
+
 func loadKnown(prop string) []*known {
 	var out []*known
 	b, err := os.ReadFile(filepath.Join(Dir(), "KNOWN_FINDINGS.txt"))
@@ -354,7 +363,7 @@ func Main(c *Check, args []string) {
 	}
 	exit := 0
 	nviol := 0
-	repDir := filepath.Join(Dir(), "replays", c.ID)
+	repDir := filepath.Join(OutDir(), "replays", c.ID)
 	for _, key := range unknownOrder {
 		vrs := unknownByKey[key]
 		nviol += len(vrs)
@@ -415,9 +424,9 @@ func Main(c *Check, args []string) {
 		"wall_s":      time.Since(start).Seconds(),
 		"violations":  nviol,
 	}
-	_ = os.MkdirAll(filepath.Join(Dir(), "evidence"), 0o755)
+	_ = os.MkdirAll(filepath.Join(OutDir(), "evidence"), 0o755)
 	b, _ := json.MarshalIndent(ev, "", " ")
-	if err := os.WriteFile(filepath.Join(Dir(), "evidence", c.ID+".json"), b, 0o644); err != nil {
+	if err := os.WriteFile(filepath.Join(OutDir(), "evidence", c.ID+".json"), b, 0o644); err != nil {
 		fmt.Printf("BROKEN-CHECK property=%s cannot write evidence: %v\n", c.ID, err)
 		os.Exit(2)
 	}
